@@ -5,6 +5,7 @@ Model: Model/Spawn.lean.  `fixed = true` is the code as it is now (after the `fi
 `fixed = false` the code before: witnesses `child_dup2_fail_returns_twice`, `old_env_dropped_without_start`.
 -/
 import TinyVerif.Model.Spawn
+import TinyVerif.Model.SpawnEnv
 namespace TinyVerif.Spawn
 
 /-! ## (i) builder -/
@@ -490,6 +491,195 @@ theorem respawn_interleaved (start : Bool) (bin : Nat) :
       have := g2 k hk'
       simpa [List.append_assoc] using this
 
+/-! ## (iv) the environment builder as a state machine: what the child receives
+
+Model/SpawnEnv.lean: `childEnv penv e` = the strings execve copies for a Command whose environment is `e` when the
+caller's own environment is `penv`; `specEnv` = what the sequence of builder calls asks for. -/
+
+theorem deref_ptrs (l : List Nat) : deref (l.map ptr ++ [0]) = l := by
+  induction l with
+  | nil => rfl
+  | cons a r ih => simp [deref, ptr, ih]
+
+/-- `envs` over an iterator that yields nothing is the identity on the Command, in every environment mode and
+    in either build (the seeded C13-m7 made it switch Inherit to an empty list) -/
+theorem envs_nil_identity (fixed start : Bool) (c : Cmd) : apply fixed start c (.envs []) = some c := rfl
+
+/-- `envs(it)` is `env(s)` for each item in turn, nothing else -/
+theorem envs_eq_foldl_env (fixed start : Bool) : ∀ (l : List Nat) (c : Cmd),
+    apply fixed start c (.envs l) = applyAll fixed start c (l.map .env) := by
+  intro l
+  induction l with
+  | nil => intro c; rfl
+  | cons e r ih =>
+    intro c
+    simp only [apply, envsL, List.map_cons, applyAll]
+    cases env fixed start c e with
+    | none => rfl
+    | some c1 => simpa [apply] using ih c1
+
+theorem applyAll_append (fixed start : Bool) : ∀ (o1 o2 : List Op) (c : Cmd),
+    applyAll fixed start c (o1 ++ o2) = (applyAll fixed start c o1).bind (applyAll fixed start · o2) := by
+  intro o1
+  induction o1 with
+  | nil => intro o2 c; rfl
+  | cons o r ih =>
+    intro o2 c
+    simp only [List.cons_append, applyAll]
+    cases apply fixed start c o with
+    | none => rfl
+    | some c1 => simpa using ih o2 c1
+
+/-- one `envs` over a concatenation = two `envs` calls (any split point, an empty half included) -/
+theorem envs_append (fixed start : Bool) (l1 l2 : List Nat) (c : Cmd) :
+    apply fixed start c (.envs (l1 ++ l2)) = (apply fixed start c (.envs l1)).bind (apply fixed start · (.envs l2)) := by
+  rw [envs_eq_foldl_env, List.map_append, applyAll_append, ← envs_eq_foldl_env]
+  cases apply fixed start c (.envs l1) with
+  | none => rfl
+  | some c1 => simp [envs_eq_foldl_env]
+
+/-- an empty `envs` may be inserted at (or removed from) any position of any call sequence without effect -/
+theorem envs_nil_anywhere (fixed start : Bool) (o1 o2 : List Op) (c : Cmd) :
+    applyAll fixed start c (o1 ++ .envs [] :: o2) = applyAll fixed start c (o1 ++ o2) := by
+  rw [applyAll_append, applyAll_append]
+  cases applyAll fixed start c o1 with
+  | none => rfl
+  | some c1 => simp [applyAll, envs_nil_identity]
+
+/-- From ANY builder state (environment Inherit, None or Provided with any content; either build), after ANY
+    sequence of arg/args/env/envs calls: no panic, and the child gets — if no variable was given — what it would
+    have got before, otherwise the variables held before followed by the given ones, in order, duplicates kept -/
+theorem builder_env_exact_from (start : Bool) (penv : List Nat) (ops : List Op) (c : Cmd) (w : WF c) (r : Reach start c) :
+    ∃ c', applyAll true start c ops = some c' ∧ childEnv penv c'.env = specEnvFrom penv c.env (wantedEnv ops) := by
+  obtain ⟨c', e, w', _, _, xe, xp⟩ := applyAll_inv start ops c w r
+  refine ⟨c', e, ?_⟩
+  cases xp with
+  | inr h => simp [specEnvFrom, h.1, h.2]
+  | inl h =>
+    have hv : (match c.env with
+        | .provided v _ => v
+        | _ => []) = envVars c.env := by cases c.env <;> rfl
+    simp only [specEnvFrom, h.1, if_false, hv]
+    cases hc : c'.env with
+    | provided v p =>
+      have := w'.2
+      rw [hc] at this xe
+      simp only at this
+      simp only [envVars] at xe
+      simp only [childEnv, this, deref_ptrs]
+      exact xe
+    | inherit => rw [hc] at h; exact absurd h.2 (by simp [isProvided])
+    | none => rw [hc] at h; exact absurd h.2 (by simp [isProvided])
+
+/-- `Command::new(bin)` followed by ANY sequence of builder calls, either build, any caller environment: the
+    child's environment is exactly `specEnv` of the variables given (entries, order, multiplicity) -/
+theorem builder_env_exact (start : Bool) (bin : Nat) (penv : List Nat) (ops : List Op) :
+    ∃ c, applyAll true start (new start bin) ops = some c ∧ childEnv penv c.env = specEnv start penv (wantedEnv ops) := by
+  have w0 : WF (new start bin) := ⟨rfl, by cases start <;> simp [new]⟩
+  have r0 : Reach start (new start bin) := by cases start <;> simp [Reach, new]
+  obtain ⟨c, e, h⟩ := builder_env_exact_from start penv ops _ w0 r0
+  refine ⟨c, e, ?_⟩
+  rw [h]
+  cases start <;> simp [specEnvFrom, specEnv, new, childEnv]
+
+theorem imageEnv_imageOf (penv : List Nat) (b : Builder) : imageEnv penv (imageOf b) = childEnv penv b.cmd.env := by
+  simp only [imageEnv, imageOf, envpOf]
+  cases b.cmd.env <;> rfl
+
+theorem envRounds_eq (start : Bool) (penv : List Nat) : ∀ (opss : List (List BOp)) (b : Builder),
+    envRounds start penv b opss =
+      (buildersOf true start b opss).map fun bs => bs.map fun b => some (childEnv penv b.cmd.env) := by
+  intro opss
+  induction opss with
+  | nil => intro b; rfl
+  | cons ops r ih =>
+    intro b
+    have ih' := ih
+    simp only [envRounds] at ih' ⊢
+    simp only [List.map_cons, runStages, buildersOf]
+    cases applyAllB true start b ops with
+    | none => rfl
+    | some b1 =>
+      simp only [Option.bind_some, spawn_preserves_config, spawnB_clean, Option.map_map]
+      have := ih' b1
+      simp only [Option.map_map] at this
+      cases hb : buildersOf true start b1 r with
+      | none =>
+        rw [hb] at this
+        cases hr : runStages true start b1 (r.map fun ops => ⟨ops, PFault.none, Option.none⟩) with
+        | none => rfl
+        | some x => rw [hr] at this; simp at this
+      | some bs =>
+        rw [hb] at this
+        cases hr : runStages true start b1 (r.map fun ops => ⟨ops, PFault.none, Option.none⟩) with
+        | none => rw [hr] at this; simp at this
+        | some x =>
+          rw [hr] at this
+          simp only [Option.map_some, Option.some.injEq] at this
+          simp [Function.comp, this, imageEnv_imageOf]
+
+/-- Builder calls (of any kind) and spawns interleaved in any way on `Command::new(bin)`: the image of EVERY
+    spawn gets exactly `specEnv` of the variables given in all calls made so far -/
+theorem respawn_env_exact (start : Bool) (bin : Nat) (penv : List Nat) (opss : List (List BOp)) :
+    ∃ envs, envRounds start penv (newB start bin) opss = some envs ∧ envs.length = opss.length ∧
+      ∀ k (hk : k < envs.length),
+        envs[k] = some (specEnv start penv (wantedEnv (cmdOps (opss.take (k + 1)).flatten))) := by
+  have w0 : WF (newB start bin).cmd := ⟨rfl, by cases start <;> simp [newB, new]⟩
+  have r0 : Reach start (newB start bin).cmd := by cases start <;> simp [Reach, newB, new]
+  obtain ⟨bs, e, l, g⟩ := respawn_interleaved start bin opss [] (newB start bin) rfl w0 r0
+  refine ⟨bs.map fun b => some (childEnv penv b.cmd.env), by rw [envRounds_eq, e]; rfl, by simpa using l, ?_⟩
+  intro k hk
+  have hk' : k < bs.length := by simpa using hk
+  have h1 := g k hk'
+  simp only [List.nil_append] at h1
+  have h2 := applyAllB_cmd true start (opss.take (k + 1)).flatten (newB start bin)
+  rw [h1] at h2
+  obtain ⟨c, ec, hc⟩ := builder_env_exact start bin penv (cmdOps (opss.take (k + 1)).flatten)
+  have : (newB start bin).cmd = new start bin := rfl
+  rw [this, ec] at h2
+  simp only [Option.map_some, Option.some.injEq] at h2
+  simp only [List.getElem_map, h2, hc]
+
+/-- `env` does NOT extend the inherited environment (as `std::process::Command::env` would): with the `start`
+    feature, the first variable given replaces the caller's whole environment.  For every non-empty caller
+    environment and every call sequence that gives at least one variable the child's environment differs from
+    "inherited ++ given". -/
+theorem env_drops_inherited (bin : Nat) (penv : List Nat) (ops : List Op) (hp : penv ≠ []) (hg : wantedEnv ops ≠ []) :
+    ∃ c, applyAll true true (new true bin) ops = some c ∧
+      childEnv penv c.env = wantedEnv ops ∧ childEnv penv c.env ≠ extendSpecEnv true penv (wantedEnv ops) := by
+  obtain ⟨c, e, h⟩ := builder_env_exact true bin penv ops
+  have h' : childEnv penv c.env = wantedEnv ops := by rw [h]; simp [specEnv, hg]
+  refine ⟨c, e, h', ?_⟩
+  rw [h']
+  intro heq
+  have := congrArg List.length heq
+  simp only [extendSpecEnv, if_true, List.length_append] at this
+  have : penv.length = 0 := by omega
+  exact hp (List.eq_nil_of_length_eq_zero this)
+
+/-- concrete witness of the above: caller environment {100, 101}, one call `env(1)`: the child gets [1] -/
+theorem env_replaces_inherited_witness :
+    (applyAll true true (new true 7) [.env 1]).map (fun c => childEnv [100, 101] c.env) = some [1] ∧
+      extendSpecEnv true [100, 101] (wantedEnv [.env 1]) = [100, 101, 1] := by decide
+
+/-- the same string (a fortiori the same key) given twice is passed twice: nothing is overridden or merged -/
+theorem env_duplicates_kept (start : Bool) (bin e : Nat) (penv : List Nat) :
+    ∃ c, applyAll true start (new start bin) [.env e, .envs [e]] = some c ∧ childEnv penv c.env = [e, e] := by
+  obtain ⟨c, ec, h⟩ := builder_env_exact start bin penv [.env e, .envs [e]]
+  exact ⟨c, ec, by rw [h]; simp [specEnv, wantedEnv]⟩
+
+/-- the theorems discriminate: an `envs` whose mode switch is hoisted in front of its loop (seeded C13-m7) is
+    not the identity on an empty iterator and the child loses the inherited environment -/
+theorem envsHoisted_violates_spec :
+    envsHoisted true true (new true 7) [] ≠ some (new true 7) ∧
+      (envsHoisted true true (new true 7) []).map (fun c => childEnv [100, 101] c.env) = some [] ∧
+      specEnv true [100, 101] (wantedEnv [.envs []]) = [100, 101] := by decide
+
+/-- ... and one that drops its last item does not deliver what was given -/
+theorem envsSkipLast_violates_spec :
+    (envsSkipLast true false (new false 7) [1, 2]).map (fun c => childEnv [] c.env) = some [1] ∧
+      specEnv false [] (wantedEnv [.envs [1, 2]]) = [1, 2] := by decide
+
 /-! ## non-vacuity -/
 
 example : (childSteps ⟨[0, 2], true, true, false, true, 2⟩) =
@@ -519,6 +709,19 @@ example : NoRaw ⟨new false 7, some .null, some .makePipe, none, true, false, f
 example : ¬ NoRaw ⟨new false 7, none, some .rawFd, none, false, false, false, false, 0⟩ := by decide
 /-- a closure that fails has been called; the ones after it have not -/
 example : closuresRun (childSteps ⟨[1], true, false, false, false, 3⟩) (some (3, some 5)) = 2 := by decide
+
+/-! environment builder -/
+example : (applyAll true true (new true 7) [.envs [], .arg 3, .envs []]).map (fun c => childEnv [100, 101] c.env) = some [100, 101] := by decide
+example : (applyAll true false (new false 7) [.envs [], .arg 3, .envs []]).map (fun c => childEnv [100, 101] c.env) = some [] := by decide
+example : (applyAll true true (new true 7) [.envs [], .env 1, .envs [], .envs [2, 1], .arg 9, .env 1]).map (fun c => childEnv [100, 101] c.env)
+    = some [1, 2, 1, 1] := by decide
+example : (applyAll true true (new true 7) [.envs [], .env 1, .envs [], .envs [2, 1], .arg 9, .env 1]).map (·.env)
+    = some (.provided [1, 2, 1, 1] [2, 3, 2, 2, 0]) := by decide
+example : specEnvFrom [100] (.provided [5] [6, 0]) [1, 2] = [5, 1, 2] := by decide
+example : specEnvFrom [100] .inherit [] = [100] := by decide
+example : envRounds true [100, 101] (newB true 7) [[.cmd (.envs [])], [.cwd], [.cmd (.env 4), .stdout .makePipe], [.cmd (.envs [])]]
+    = some [some [100, 101], some [100, 101], some [4], some [4]] := by decide
+example : deref [3, 1, 0, 9] = [2, 0] := by decide
 
 /-- a poll (`try_wait`) that finds the child still running leaves the handle exactly as it was — nothing is cached —
 so a later `wait` still reaps the child and reports its real status -/
